@@ -20,7 +20,7 @@ Inductive aop :=
 | ASelectAll (s : hid)             (* select repeated until every pending event of every member has been reported *)
 | AServer                          (* IpcOneShotServer::new *)
 | AConnect (s : hid)               (* IpcSender::connect(name of s) *)
-| AAccept (s : hid).               (* IpcOneShotServer::accept, only when a first message is there *)
+| AAccept (s : hid).               (* IpcOneShotServer::accept, when a first message is there or no client sender is left *)
 
 Inductive akind := HTx | HRx | HMem.
 Inductive sev := SMsg (member : nat) (data : Z) (hs : list (akind * hid)) | SBad (member : nat) | SClosed (member : nat).
@@ -211,7 +211,11 @@ Definition a_step (s : ast) (o : aop) : ast * aout :=
               let rx := anext s in
               let '(hs', n', out) := a_install (update (ah s) sh OGone ++ [(rx, OR c)]) (S rx) (m_rights m) in
               (keep k' hs' n', QAccepted rx (m_data m) out)
-          | _ => (s, QBad)      (* accept would block (or fail): outside what the model defines *)
+          | KClosed =>
+              (* the client connected and every sender of the rendezvous channel is gone without a message: accept fails with
+                 'disconnected'; the server is consumed and its receiving end released *)
+              (keep (k_close (ak s) (RR c)) (update (ah s) sh OGone) (anext s), QDisconnected)
+          | KEmpty => (s, QBad)      (* accept would block: outside what the model defines *)
           end
       | _ => (s, QBad)
       end
